@@ -45,6 +45,14 @@ func propC13(run *Run, n int) {
 			addC13TwoStep(run, t, dw, dw2)
 		}
 	}
+	// two hunks of ONE diff on the same array: the first edits it through a set / multiset / index path (leaving a node
+	// of another Go type in the document being patched), the second addresses it as a whole value with no / one / two
+	// removed and added values
+	for i := 0; i < n/40+8; i++ {
+		t, dw := twoHunkSamePath(r)
+		run.Count("two-hunks:array-edit-then-whole-value")
+		addC13Patch(run, t, dw)
+	}
 	for i := 0; i < n/2; i++ {
 		addC13Text(run, hostileText(r, cfg), cfg.Doc(r, 0))
 	}
@@ -55,6 +63,51 @@ func propC13(run *Run, n int) {
 			addC13Text(run, txt, VObj("a", VArr(VNum(1)), "a~", VNum(1), "~", VNum(1)))
 		}
 	}
+}
+
+func twoHunkSamePath(r *Rng) (*Val, string) {
+	arr := VArr(VNum(1), VNum(2))
+	if r.Chance(1, 3) {
+		arr = VArr()
+	}
+	var t *Val = arr
+	pre := ""
+	switch r.Intn(4) {
+	case 0:
+		t, pre = VObj("a", arr), "K\"61 "
+	case 1:
+		t, pre = VArr(VNum(0), arr), "I1 "
+	case 2:
+		t, pre = VObj("a", VObj("b", arr)), "K\"61 K\"62 "
+	}
+	var h1 string
+	switch r.Intn(4) {
+	case 0:
+		h1 = fmt.Sprintf("( s %sS | | | #4008000000000000 | )", pre)
+	case 1:
+		h1 = fmt.Sprintf("( s %sM | | | #4008000000000000 | )", pre)
+	case 2:
+		h1 = fmt.Sprintf("( s %sI-1 | | | #4008000000000000 | )", pre)
+	default:
+		h1 = fmt.Sprintf("( s %sI0 | V | | #4008000000000000 | )", pre)
+	}
+	vals := func(k int) string {
+		out := []string{}
+		for j := 0; j < k; j++ {
+			if r.Chance(1, 2) {
+				out = append(out, arr.Wire())
+			} else {
+				out = append(out, "#4014000000000000")
+			}
+		}
+		return strings.Join(out, " ")
+	}
+	kind := "s"
+	if r.Chance(1, 4) {
+		kind = "m"
+	}
+	h2 := fmt.Sprintf("( %s %s| | %s | %s | )", kind, pre, vals(r.Intn(3)), vals(r.Intn(3)))
+	return t, joinHunks([]string{strings.Join(strings.Fields(h1), " "), strings.Join(strings.Fields(h2), " ")})
 }
 
 // tailRemovalDiff: a hunk that removes the LAST element of an array of the target (root, or below key "k")
